@@ -368,7 +368,7 @@ def monitor(case: dict, obs: dict, payloads: list[str], terminals: list[bool]) -
         if terminals[i]:
             break
     got: list[int] = []
-    fam = ",".join(sorted({e.get("cls", "?") for e in evs if e.get("cls") in ("linebreak",)})) or "plain"
+    fam = "linebreak" if any(ch in p for p in payloads for ch in "\x85\u2028\u2029") else "plain"
     for pos, (ls, dump) in enumerate(obs["yielded"]):
         idx = payloads.index(dump) if dump in payloads else None
         if idx is None:
@@ -447,11 +447,11 @@ def run(env: Env) -> Outcome:
     if env.replay is not None:
         cases.append(env.replay["payload"]["case"])
     cases += load_corpus()
-    n = env.budget(260, 6000)
+    n = env.budget(1200, 26000)
     for i in range(n):
         fam = "mixed" if i % 4 < 2 else ("drops" if i % 4 == 2 else "budget")
         cases.append(gen_case(rng, fam))
-    for _ in range(env.budget(120, 3000)):
+    for _ in range(env.budget(500, 10000)):
         cases.append(gen_raw_case(rng))
 
     ops: list[str] = []
@@ -495,7 +495,7 @@ def run(env: Env) -> Outcome:
     # ---- framing alone: the body the real endpoint produces vs the model's rendering
     ops2: list[str] = []
     impl2: list[str] = []
-    for _ in range(env.budget(80, 1500)):
+    for _ in range(env.budget(300, 5000)):
         evs, status = gen_events(rng)
         case = {"events": evs, "status": status, "hb": 5.0 if rng.random() < 0.4 else None}
         seqs = [e["seq"] for e in evs]
